@@ -14,6 +14,7 @@
 package store
 
 import (
+	"bytes"
 	"container/list"
 	"errors"
 	"fmt"
@@ -271,6 +272,11 @@ func (s *CAStore) addToMemoryCache(
 		// The reservation covers exactly size bytes; an entry of any other length
 		// would leave the memory cache's accounting out of balance when it is removed.
 		return fmt.Errorf("blob length %d does not match reserved size %d", len(data), size)
+	}
+	// The entry is served to readers as soon as it is added, long before the
+	// drain verifies it on its way to disk, so the digest must be checked here.
+	if err := s.verify(bytes.NewReader(data), name); err != nil {
+		return fmt.Errorf("verify digest: %s", err)
 	}
 	metaInfo, err := s.generateMetadataFromBytes(name, data, pieceLength)
 	if err != nil {
